@@ -60,7 +60,7 @@ HARNESSES = {
     "iter": dict(units=[dict(src="iter.cpp")]),
     "seq": dict(units=_sq_units()),
     "any": dict(units=[dict(src="any.cpp")]),
-    "variant": dict(units=[dict(src="variant.cpp")]),
+    "variant": dict(units=[dict(src="variant.cpp"), dict(src="variant_wide.cpp", drop_flags=["-fsanitize=bounds"])]),
     "bitset": dict(units=_bs_units()),
     "fstring": dict(units=_fs_units()),
     "sysenv": dict(units=[dict(src="sysenv.cpp")], ldflags=["-Wl,--wrap=readlink"]),
@@ -197,7 +197,8 @@ PROPS["C05"] = dict(
     probes=["valueless_reached", "valueless_by_emplace", "valueless_by_assignment", "valueless_by_swap", "valueless_moved_or_copied", "valueless_assigned_from",
             "valueless_compared", "valueless_visited", "swap_threw", "swap_with_valueless", "same_index_assignment_threw", "self_assignment", "self_swap",
             "three_variant_visit", "more_than_32_alternatives_dispatch", "constructor_threw", "moved_from_alternative",
-            "unordered_values_compared", "assignment_switching_alternative_defaulted_or_trivial_set", "multi_visit_with_index_ge_32_not_last", "converting_assignment_threw_in_constructor"],
+            "unordered_values_compared", "assignment_switching_alternative_defaulted_or_trivial_set", "multi_visit_with_index_ge_32_not_last", "converting_assignment_threw_in_constructor",
+            "wide_last_alternative_held", "wide_valueless_reached", "assigned_from_const_rvalue_variant", "rvalue_variant_visited"],
     components=dict(real=["include/xtl/xvariant_impl.hpp (mpark variant: construction, assignment, emplace, swap, relational operators, switch-based visitation, hash)", "include/xtl/xvariant.hpp (xget)"],
                     stub=["lifetime-tracked alternative types with a fault point in every constructor and assignment", "recording visitors", "dirty, red-zoned arena memory under every variant"]),
     assumptions=["the table-based visitation path is compiled out on GCC/Clang in C++14 (MPARK_VARIANT_SWITCH_VISIT) and cannot be reached here",
